@@ -1,0 +1,162 @@
+//go:build verif
+
+package hevc
+
+// C16 (no panic, termination, bounded allocation) for the SPS/PPS/slice-header helpers of package hevc.
+
+// Every internal helper taking the bit reader keeps it well-formed with a masked accumulator (bits.erM): values returned
+// by Read(n) then fit in n bits. The reader of the exported parsers is created by bits.NewEBSPReader (v == 0, n == 0).
+//@ schema hevcRd func ^(parse[A-Za-z0-9]+|readPastScalingListData)$
+//@   requires erM(p0)
+//@   ensures erK(p0, old(p0.err) == nil, old(erInvW(p0)), old(p0.rd))
+
+//@ func ceilDiv
+//@   requires b != 0
+
+// cpb_cnt_minus1 is range-checked (<= 31) by the only caller parseHrdParameters (sps.go:612).
+//@ func parseSubLayerHrdParameters
+//@   requires cpbCntMinus1 <= 31
+//@   loop 1 invariant erK(r, old(r.err) == nil, old(erInvW(r)), old(r.rd))
+
+// sps_max_sub_layers_minus1 is a 3-bit field (sps.go:322).
+//@ func parseHrdParameters
+//@   requires maxNumSubLayersMinus1 <= 7
+//@   loop 1 invariant erK(r, old(r.err) == nil, old(erInvW(r)), old(r.rd)) && hp != nil && len(hp.SubLayerHrd) == int(maxNumSubLayersMinus1)+1
+//@   loop 1 invariant forall k int :: 0 <= k && k < len(hp.SubLayerHrd) ==> hp.SubLayerHrd[k].CpbCntMinus1 <= 31
+
+// num_ref_idx_l0/l1_active_minus1 are range-checked (<= 14) by the only caller ParseSliceHeader (slice.go:266).
+//@ func parseRefPicListsModification
+//@   requires refIdxL0Minus1 <= 14 && refIdxL1Minus1 <= 14
+//@   loop 1 invariant erK(r, old(r.err) == nil, old(erInvW(r)), old(r.rd)) && rplm != nil && len(rplm.ListEntryL0) == int(refIdxL0Minus1)+1
+//@   loop 2 invariant erK(r, old(r.err) == nil, old(erInvW(r)), old(r.rd)) && rplm != nil && len(rplm.ListEntryL1) == int(refIdxL1Minus1)+1
+//@ func parsePredWeightTable
+//@   requires refIdxL0Minus1 <= 14 && refIdxL1Minus1 <= 14
+//@   loop 1 invariant erK(r, old(r.err) == nil, old(erInvW(r)), old(r.rd)) && pwt != nil && len(pwt.WeightsL0) == int(refIdxL0Minus1)+1
+//@   loop 2 invariant erK(r, old(r.err) == nil, old(erInvW(r)), old(r.rd)) && pwt != nil && len(pwt.WeightsL0) == int(refIdxL0Minus1)+1
+//@   loop 3 invariant erK(r, old(r.err) == nil, old(erInvW(r)), old(r.rd)) && pwt != nil && len(pwt.WeightsL0) == int(refIdxL0Minus1)+1
+//@   loop 4 invariant erK(r, old(r.err) == nil, old(erInvW(r)), old(r.rd)) && pwt != nil && len(pwt.WeightsL0) == int(refIdxL0Minus1)+1 && i <= refIdxL0Minus1 && 0 <= j && j <= 2
+//@   loop 5 invariant erK(r, old(r.err) == nil, old(erInvW(r)), old(r.rd)) && pwt != nil && len(pwt.WeightsL1) == int(refIdxL1Minus1)+1
+//@   loop 6 invariant erK(r, old(r.err) == nil, old(erInvW(r)), old(r.rd)) && pwt != nil && len(pwt.WeightsL1) == int(refIdxL1Minus1)+1
+//@   loop 7 invariant erK(r, old(r.err) == nil, old(erInvW(r)), old(r.rd)) && pwt != nil && len(pwt.WeightsL1) == int(refIdxL1Minus1)+1
+//@   loop 8 invariant erK(r, old(r.err) == nil, old(erInvW(r)), old(r.rd)) && pwt != nil && len(pwt.WeightsL1) == int(refIdxL1Minus1)+1 && i <= refIdxL1Minus1 && 0 <= j && j <= 2
+
+// Short-term reference picture sets of an SPS: the slice has NumShortTermRefPicSets entries (sps.go:383) and every
+// NumDeltaPocs is below 255 (needed by the uint8 loop `j <= numDeltaPocs` of parseShortTermRPS, sps.go:713).
+//@ pred rpsOK(sps *SPS) = sps != nil && len(sps.ShortTermRefPicSets) == int(sps.NumShortTermRefPicSets) && (forall k int :: 0 <= k && k < len(sps.ShortTermRefPicSets) ==> sps.ShortTermRefPicSets[k].NumDeltaPocs < 255)
+
+//@ func parseShortTermRPS
+//@   requires rpsOK(sps) && idx <= numSTRefPicSets && numSTRefPicSets == sps.NumShortTermRefPicSets
+//@   ensures idx < numSTRefPicSets ==> result.NumDeltaPocs <= 32 || (0 < idx && int(result.NumDeltaPocs) <= int(sps.ShortTermRefPicSets[idx-1].NumDeltaPocs) + 1)
+//@   loop 1 invariant erK(r, old(r.err) == nil, old(erInvW(r)), old(r.rd)) && int(stps.NumDeltaPocs) <= int(j) && int(j) <= int(numDeltaPocs) + 1 && numDeltaPocs < 255
+//@   loop 1 invariant idx < numSTRefPicSets ==> 0 < idx && numDeltaPocs == sps.ShortTermRefPicSets[idx-1].NumDeltaPocs
+//@   loop 2 invariant erK(r, old(r.err) == nil, old(erInvW(r)), old(r.rd)) && stps.NumNegativePics <= 16 && stps.NumPositivePics <= 16 && len(stps.DeltaPocS0) == int(stps.NumNegativePics) && len(stps.UsedByCurrPicS0) == int(stps.NumNegativePics) && stps.NumDeltaPocs <= 32
+//@   loop 3 invariant erK(r, old(r.err) == nil, old(erInvW(r)), old(r.rd)) && stps.NumNegativePics <= 16 && stps.NumPositivePics <= 16 && len(stps.DeltaPocS1) == int(stps.NumPositivePics) && len(stps.UsedByCurrPicS1) == int(stps.NumPositivePics) && stps.NumDeltaPocs <= 32
+
+// ---------------------------------------------------------------- PPS extensions
+
+// FINDING (dec:1 fails genuinely): chroma_qp_offset_list_len_minus1 is not range-checked (pps.go:335).
+//@ func parseRangeExtension
+//@   loop 1 invariant erK(r, old(r.err) == nil, old(erInvW(r)), old(r.rd)) && ext != nil
+
+//@ func parseMultilayerExtension
+//@   loop 1 invariant erK(r, old(r.err) == nil, old(erInvW(r)), old(r.rd)) && ext != nil && ext.RefLocOffsets != nil && uint(len(ext.RefLocOffsetLayerIds)) == i
+
+// pps_bit_depth_for_depth_layers_minus8 is a 4-bit field (pps.go:554): the caller passes 8..23.
+//@ func parseDeltaDlt
+//@   requires 8 <= BitDepthForDepthLayers && BitDepthForDepthLayers <= 23
+//@   loop 1 invariant erK(r, old(r.err) == nil, old(erInvW(r)), old(r.rd)) && dd != nil
+
+//@ func parse3dExtension
+//@   loop 1 invariant erK(r, old(r.err) == nil, old(erInvW(r)), old(r.rd)) && ext != nil && ext.NumDepthLayersMinus1 <= 63 && ext.BitDepthForDepthLayersMinus8 <= 15
+//@   loop 2 invariant erK(r, old(r.err) == nil, old(erInvW(r)), old(r.rd)) && ext != nil && ext.NumDepthLayersMinus1 <= 63 && ext.BitDepthForDepthLayersMinus8 <= 15 && i <= ext.NumDepthLayersMinus1
+//@   loop 2 invariant 0 <= j && 0 <= depthMaxValue && depthMaxValue < 1<<23
+
+// sps_max_sub_layers_minus1 is a 3-bit field (sps.go:322).
+//@ func parseVUI
+//@   requires MaxSubLayersMinus1 <= 7
+
+// resLsBits is computed by parseColourMappingTable (clipped at 0 there, pps.go:432); the upper bound is the domain of
+// bits.EBSPReader.Read. NOT established by the caller for out-of-range cm bit depths (reported).
+//@ func parseColourMappingOctants
+//@   requires 0 <= resLsBits && resLsBits <= 1<<52
+//@   loop 1 invariant erK(r, old(r.err) == nil, old(erInvW(r)), old(r.rd))
+//@   loop 2 invariant erK(r, old(r.err) == nil, old(erInvW(r)), old(r.rd))
+//@   loop 3 invariant erK(r, old(r.err) == nil, old(erInvW(r)), old(r.rd))
+//@   loop 4 invariant erK(r, old(r.err) == nil, old(erInvW(r)), old(r.rd)) && octs != nil
+//@   loop 5 invariant erK(r, old(r.err) == nil, old(erInvW(r)), old(r.rd)) && octs != nil && 0 <= j && j <= 4
+//@   loop 6 invariant erK(r, old(r.err) == nil, old(erInvW(r)), old(r.rd)) && octs != nil && 0 <= j && j < 4 && 0 <= c && c <= 3
+
+// ---------------------------------------------------------------- helpers verified before (loop invariants for the reader)
+//@ func parseProfileTierLevel
+//@   loop 1 invariant erK(r, old(r.err) == nil, old(erInvW(r)), old(r.rd)) && len(ptl.SubLayers) == int(maxNumSubLayersMinus1)
+//@   loop 2 invariant erK(r, old(r.err) == nil, old(erInvW(r)), old(r.rd)) && len(ptl.SubLayers) == int(maxNumSubLayersMinus1)
+//@ func readPastScalingListData
+//@   loop 1 invariant erK(r, old(r.err) == nil, old(erInvW(r)), old(r.rd))
+//@   loop 2 invariant erK(r, old(r.err) == nil, old(erInvW(r)), old(r.rd)) && 0 <= sizeId && sizeId < 4
+//@   loop 3 invariant erK(r, old(r.err) == nil, old(erInvW(r)), old(r.rd)) && 0 <= sizeId && sizeId < 4
+//@ func parseSPSSccExtension
+//@   loop 1 invariant erK(r, old(r.err) == nil, old(erInvW(r)), old(r.rd)) && ext != nil && len(ext.PalettePredictorInitializer) == numComps && 1 <= numComps
+//@   loop 2 invariant erK(r, old(r.err) == nil, old(erInvW(r)), old(r.rd)) && ext != nil && len(ext.PalettePredictorInitializer) == numComps && 1 <= comp
+//@   loop 3 invariant erK(r, old(r.err) == nil, old(erInvW(r)), old(r.rd)) && ext != nil && len(ext.PalettePredictorInitializer) == numComps && 1 <= comp && comp < numComps
+//@ func parseSccExtension
+//@   loop 1 invariant erK(r, old(r.err) == nil, old(erInvW(r)), old(r.rd)) && ext != nil && len(ext.PalettePredictorInitializer) == numComps && 1 <= numComps
+//@   loop 2 invariant erK(r, old(r.err) == nil, old(erInvW(r)), old(r.rd)) && ext != nil && len(ext.PalettePredictorInitializer) == numComps && 1 <= comp
+//@   loop 3 invariant erK(r, old(r.err) == nil, old(erInvW(r)), old(r.rd)) && ext != nil && len(ext.PalettePredictorInitializer) == numComps && 1 <= comp && comp < numComps
+//@ func parseColourMappingTable
+//@   loop 1 invariant erK(r, old(r.err) == nil, old(erInvW(r)), old(r.rd)) && cm != nil
+
+// ---------------------------------------------------------------- exported parsers
+// rS: the local reader is masked and in sync with its stream as long as no error occurred.
+//@ pred rS(r *bits.EBSPReader) = erM(r) && (r.err == nil ==> erInvW(r))
+
+//@ func ParsePPSNALUnit
+//@   loop 1 invariant rS(r) && pps != nil
+//@   loop 2 invariant rS(r) && pps != nil
+//@   loop 3 invariant rS(r) && pps != nil && (more ==> r.err == nil)
+//@   loop 3 decreases ghost(r.rd).rlen - ghost(r.rd).rpos, r.n
+
+// FINDING: the precondition rpsOK of parseShortTermRPS (all NumDeltaPocs < 255) cannot be established at sps.go:385 because
+// num_short_term_ref_pic_sets is not limited to 64 (NumDeltaPocs can grow by one per set).
+//@ func ParseSPSNALUnit
+//@   loop 1 invariant rS(r) && sps != nil && sps.MaxSubLayersMinus1 <= 7
+//@   loop 2 invariant rS(r) && sps != nil && sps.MaxSubLayersMinus1 <= 7 && len(sps.ShortTermRefPicSets) == int(sps.NumShortTermRefPicSets)
+//@   loop 2 invariant forall k int :: 0 <= k && k < len(sps.ShortTermRefPicSets) ==> (k < int(idx) ==> int(sps.ShortTermRefPicSets[k].NumDeltaPocs) <= 32 + k) && (k >= int(idx) ==> sps.ShortTermRefPicSets[k].NumDeltaPocs == 0)
+//@   loop 3 invariant rS(r) && sps != nil && sps.MaxSubLayersMinus1 <= 7 && len(sps.LongTermRefPicSets) == int(sps.NumLongTermRefPics)
+//@   loop 4 invariant rS(r) && sps != nil && (more ==> r.err == nil)
+//@   loop 4 decreases ghost(r.rd).rlen - ghost(r.rd).rpos, r.n
+
+// Parameter sets handed to ParseSliceHeader are the results of ParseSPSNALUnit / ParsePPSNALUnit.
+//@ func ParseSliceHeader
+//@   requires len(nalu) <= 1<<40
+//@   loop 1 invariant erM(r)
+//@   loop 2 invariant erM(r)
+//@   loop 5 invariant r != nil && r.err == nil && erM(r)
+//@   loop 5 decreases r.n
+
+// The only caller ParseSEINalu checks sps != nil (sei.go:43).
+//@ func fillHEVCPicTimingParams
+//@   requires sps != nil
+
+//@ func CodecString
+//@   loop 1 invariant 0 <= i && i <= 5 && nrBytes == 6 - i
+//@   loop 2 invariant 0 <= i && i <= nrBytes && 1 <= nrBytes && nrBytes <= 6
+
+//@ func ParseSPSNALUnit
+//@   ensures result1 == nil ==> result0 != nil
+
+// Loops 3-5 (copy into psData) are NOT proved: they need totSize == sum of the lengths of the collected NAL units, a
+// recursive sum over slices that are appended to / overwritten in place (needs an inductive frame lemma, not available).
+//@ func GetParameterSetsFromByteStream
+//@   requires len(data) <= 1<<48
+//@   loop 1 invariant scanInv(data, i, currNaluStart, n) && 0 <= totSize && totSize <= i && (i <= n || i == 0)
+//@   loop 2 invariant scanInv(data, i, currNaluStart, n) && i < n-4 && 0 < currNaluStart && currNaluStart <= i && currNaluStart <= j+1 && j < i && currNaluStart <= currNaluEnd && currNaluEnd <= i && 0 <= totSize && totSize <= currNaluStart
+//@   loop 2 decreases j
+
+// parseShortTermRPS only reads the SPS (needed by the loop over the sets in ParseSPSNALUnit).
+//@ pred rpsSame(sps *SPS, n0 int, num0 byte, msl0 byte) = len(sps.ShortTermRefPicSets) == n0 && sps.NumShortTermRefPicSets == num0 && sps.MaxSubLayersMinus1 == msl0
+//@ func parseShortTermRPS
+//@   ensures rpsSame(sps, old(len(sps.ShortTermRefPicSets)), old(sps.NumShortTermRefPicSets), old(sps.MaxSubLayersMinus1))
+//@   ensures forall k int :: 0 <= k && k < len(sps.ShortTermRefPicSets) ==> sps.ShortTermRefPicSets[k].NumDeltaPocs == old(sps.ShortTermRefPicSets[k].NumDeltaPocs)
+//@   loop 1 invariant forall k int :: 0 <= k && k < len(sps.ShortTermRefPicSets) ==> sps.ShortTermRefPicSets[k].NumDeltaPocs == old(sps.ShortTermRefPicSets[k].NumDeltaPocs)
+//@   loop 2 invariant forall k int :: 0 <= k && k < len(sps.ShortTermRefPicSets) ==> sps.ShortTermRefPicSets[k].NumDeltaPocs == old(sps.ShortTermRefPicSets[k].NumDeltaPocs)
+//@   loop 3 invariant forall k int :: 0 <= k && k < len(sps.ShortTermRefPicSets) ==> sps.ShortTermRefPicSets[k].NumDeltaPocs == old(sps.ShortTermRefPicSets[k].NumDeltaPocs)
